@@ -149,6 +149,9 @@ FOREIGN = {
     # bins that are no numbers at all
     "hist_str_bins": lambda: (histogram([0, 1, 2], [_fresh_str("ab"), _fresh_str("cd")]), {"a": 4}),
     "hist_none_bins": lambda: histogram([0, 1, 2], [None, None]),
+    # bins of different types: the FIRST cell is an int, the last one is not (which cell is the
+    # "arbitrary bin" that select_bins is asked about is the user's option get_example_bin)
+    "hist_mixed_last_float": lambda: (histogram([0, 1, 2], [1, 2.5]), {"a": 5}),
     "graph": lambda: graph([[0, 1], [2, 3]]),
     "pair_graph": lambda: (graph([[0, 1], [2, 3]]), {"g": 1}),
     # groups and selectors
@@ -193,6 +196,9 @@ def b_pool(kind, cfg):
             extra = ["str", "graph", "pair_graph", "hist", "pair_hist", "hist_float_bins"]
         elif cfg == "ctxsel":   # bins selected by a key in the bin context
             extra = ["str", "graph", "hist_bins_not_sel", "hist", "pair_hist", "hist_float_bins"]
+        elif cfg == "int_last":   # the user's get_example_bin hands the LAST cell to select_bins=int
+            extra = ["str", "graph", "hist_mixed_last_float", "hist_float_bins", "hist_list_bins",
+                     "nested_pair"]
         else:  # int bins selected
             extra = ["str", "graph", "pair_graph", "hist_float_bins", "hist_list_bins", "nested_pair"]
         drop = ["float", "tuple2", "list"]
@@ -237,7 +243,7 @@ def b_subpool(kind, cfg, size=SUBPOOL):
         "LaTeXToPDF": ["int", "str_pdf", "pair_output_scalar", "str_csv", "pair_disabled"],
         "PDFToPNG": ["int", "str_tex", "pair_output_scalar", "str_png", "pair_disabled"],
         "HistToGraph": ["hist_pairbins_no_graph", "int", "hist_no_graph", "pair_graph", "pair_output_scalar"],
-        "MapBins": ["hist_bins_not_sel", "int", "pair_graph", "hist_float_bins", "pair_output_scalar"],
+        "MapBins": ["hist_mixed_last_float", "hist_bins_not_sel", "int", "pair_graph", "hist_float_bins", "pair_output_scalar"],
         "IterateBins": ["int", "hist_float_bins", "pair_graph", "pair_output_scalar", "pair_empty"],
         "RunIf": ["int", "pair_sel_false", "pair_empty", "str", "pair_output_scalar"],
         "MapGroup": ["int", "num_with_group", "list_no_group", "pair_output_scalar", "pair_empty"],
@@ -263,7 +269,60 @@ def b_pool_for(kind, cfg, blen, tier):
 
 
 def make_b(name):
+    if name.startswith(SHAPE_PREFIX):
+        return make_shape(name)
     return FOREIGN[name]()
+
+
+# ------------------------------------------------------------------------------------------------
+# shape axis: the content of a value the element SELECTS, held by something that is not a
+# (data, context) tuple.  lena documents a value with context as a tuple (data, context)
+# (lena.flow.get_context: "a possible (data, context) pair"); a list [data, context], a one-shot
+# iterator over data and context, and iterators of other lengths are plain data of a type no
+# element selects.  They must pass as the same object, untouched (for an iterator: not advanced).
+# ------------------------------------------------------------------------------------------------
+
+SHAPE_PREFIX = "shape:"
+SHAPE_FORMS = ("list", "iter")
+SHAPE_ITER_LENGTHS = (1, 2, 3)
+
+
+class OneShot(object):
+    """A one-shot iterator (like an open file or a reader): its position is visible state."""
+
+    def __init__(self, items):
+        self.items = list(items)
+        self.pos = 0
+
+    def __iter__(self):
+        return self
+
+    def __next__(self):
+        if self.pos >= len(self.items):
+            raise StopIteration
+        self.pos += 1
+        return self.items[self.pos - 1]
+
+
+def shape_pool(kind, cfg, tier="thorough"):
+    """Names 'shape:<element>:<form>:<selected value>' and 'shape:<element>:iter<n>:-'."""
+    if is_decline(cfg):
+        return []
+    out = ["%s%s:%s:%s" % (SHAPE_PREFIX, kind, form, a)
+           for form in SHAPE_FORMS for a in a_pool(kind, cfg, tier)]
+    out.extend("%s%s:iter%d:-" % (SHAPE_PREFIX, kind, n) for n in SHAPE_ITER_LENGTHS)
+    return out
+
+
+def make_shape(name):
+    _, kind, form, a = name.split(":")
+    if a == "-":
+        n = int(form[4:])
+        return OneShot([_fresh_int(30 + i) for i in range(n)])
+    val = make_a(kind, a)
+    if not (type(val) is tuple and len(val) == 2 and type(val[1]) is dict):
+        val = (val, {})
+    return list(val) if form == "list" else OneShot(val)
 
 
 # ------------------------------------------------------------------------------------------------
@@ -439,7 +498,7 @@ def configs(kind):
         "LaTeXToPDF": ["default", "overwrite", "command"],
         "PDFToPNG": ["default", "overwrite", "jpeg"],
         "HistToGraph": ["default", "middle_scale", "value"],
-        "MapBins": ["all", "int", "vec", "ctxsel"],
+        "MapBins": ["all", "int", "vec", "ctxsel", "int_last"],
         "IterateBins": ["default", "int"],
         "RunIf": ["flag_call", "flag_count", "flag_dup", "flag_drop", "type_call", "str2", "str3"],
         "MapGroup": ["call", "ctx", "two"],
@@ -462,6 +521,20 @@ class _Drop(object):
         for val in flow:
             if lena.flow.get_data(val) % 2 == 0:
                 yield val
+
+
+def last_cell(struct):
+    """A user's get_example_bin: the cell with the last index on each axis (*struct* is a histogram
+    or an array of bins, as documented for lena.structures.get_example_bin)."""
+    if isinstance(struct, histogram):
+        bins = struct.bins
+        for _ in range(struct.dim):     # a cell may itself be a list
+            bins = bins[-1]
+        return bins
+    bins = struct
+    while isinstance(bins, list):
+        bins = bins[-1]
+    return bins
 
 
 def _add1(val):
@@ -552,6 +625,10 @@ def build(kind, cfg):
         if cfg == "int":
             return lena.structures.MapBins(lena.variables.Variable("add1", lambda x: x + 1),
                                            select_bins=int)
+        if cfg == "int_last":
+            # the documented option get_example_bin: the "arbitrary bin" is the user's choice
+            return lena.structures.MapBins(lena.variables.Variable("add1", lambda x: x + 1),
+                                           select_bins=int, get_example_bin=last_cell)
         if cfg == "vec":
             return lena.structures.MapBins(
                 lena.variables.Variable("x", lambda v: v.x), select_bins=[Vec],
@@ -662,6 +739,8 @@ _A = {
         "int_bins": lambda: _h1(),
         "int_bins_ctx": lambda: (_h1((3, 4)), {"variable": {"name": "x"}}),
         "intctx_bins": lambda: (histogram([0, 1, 2], [(1, {"c": 1}), (2, {"c": 1})]), {"a": 1}),
+        # the last cell is an int, the first one is not
+        "mixed_last_int": lambda: (histogram([0, 1, 2], [0.5, 3]), {"n": 1}),
         "vec_bins": lambda: (histogram([0, 1, 2], [Vec(1, 2), Vec(3, 4)]),
                              {"variable": {"name": "v"}}),
         "sel_bins": lambda: (histogram([0, 1, 2], [(1, {"sel": {"yes": 1}}), (2, {"sel": {"yes": 1}})]),
@@ -702,6 +781,7 @@ def a_pool(kind, cfg, tier="thorough"):
     if kind == "MapBins":
         return {"all": ["int_bins", "int_bins_ctx", "intctx_bins"],
                 "int": ["int_bins", "int_bins_ctx", "intctx_bins"],
+                "int_last": ["int_bins", "int_bins_ctx", "mixed_last_int"],
                 "vec": ["vec_bins"], "ctxsel": ["sel_bins", "sel_bins2"]}[cfg]
     if kind == "IterateBins":
         return {"default": ["hh", "hh_ctx"], "int": ["int_bins"]}[cfg]
